@@ -18,12 +18,18 @@ structure Standard (bu ru bg rg : Nat) (ts : List Trigger) : Prop where
   has_gid : .fixGid bg rg ∈ ts
   has_bits : .fixSetBits ∈ ts
 
+theorem Standard.noReset {bu ru bg rg : Nat} {ts : List Trigger} (hs : Standard bu ru bg rg ts) :
+    ∀ t ∈ ts, t.isReset = false := by
+  intro t ht
+  rcases hs.only t ht with rfl | rfl | rfl | ⟨fp, rfl⟩ <;> rfl
+
 /-- **The mutation-level model is a pointwise map.**  On a contents set (distinct locations) running the triggers —
 each a `cset.update(x.change_attributes(…) for x in … if …)` — rewrites every entry in place by `hardenWith`:
 no entry is added, dropped, duplicated or moved. -/
-theorem premerge_pointwise (ts : List Trigger) (c : CSet) (hnd : (c.map (·.loc)).Nodup) :
+theorem premerge_pointwise (ts : List Trigger) (hnr : ∀ t ∈ ts, t.isReset = false) (c : CSet)
+    (hnd : (c.map (·.loc)).Nodup) :
     runTriggers ts c = c.map (hardenWith ts) ∧ (runTriggers ts c).map (·.loc) = c.map (·.loc) := by
-  have h := runTriggers_eq_map ts c hnd
+  have h := runTriggers_eq_map ts hnr c hnd
   refine ⟨h, ?_⟩
   rw [h, List.map_map]
   apply List.map_congr_left
@@ -67,6 +73,7 @@ theorem harden_spec (bu ru bg rg : Nat) (ts : List Trigger) (hs : Standard bu ru
       split at hi
       · simp only [testBit_clearBits, Bool.and_eq_true] at hi; exact hi.1
       · exact hi
+    | reset img => exact hi
   have hQ0 : Q e := ⟨rfl, fun _ h => h⟩
   have hsymQ : ∀ x, Q x → x.isSym = e.isSym := fun x hx => by simp [Entry.isSym, hx.1]
   refine ⟨hkind e rfl, ?_, ?_, ?_, ?_, ?_, ?_, ?_, ?_, ?_, ?_⟩
@@ -195,6 +202,7 @@ theorem harden_spec (bu ru bg rg : Nat) (ts : List Trigger) (hs : Standard bu ru
         · rintro ⟨_, hw⟩
           rw [clear2_not_ww] at hw; cases hw
         · exact hp
+      | reset img => exact hp
   · -- mode_sub
     exact (fold_inv Q ts hQstep e hQ0).2
   · -- mode_rest
@@ -218,6 +226,7 @@ theorem harden_spec (bu ru bg rg : Nat) (ts : List Trigger) (hs : Standard bu ru
         rw [testBit_clearBits, bits_2, ← hx]
         simp [h1]
       · exact hx
+    | reset img => exact hx
   · -- safe_kept
     intro hfp hsafe
     have hnot : Trigger.detectWorldWritable true ∉ ts := by simpa using hfp
@@ -250,6 +259,7 @@ theorem harden_spec (bu ru bg rg : Nat) (ts : List Trigger) (hs : Standard bu ru
     | fixGid b g => simp only [Trigger.step]; split <;> exact hx
     | fixSetBits => simp only [Trigger.step, hxs]; exact hx
     | detectWorldWritable fp => simp only [Trigger.step, hxs]; simpa using hx
+    | reset img => exact hx
   · -- no_ww
     intro hfp hsym
     have hin : Trigger.detectWorldWritable true ∈ ts := by simpa using hfp
@@ -279,6 +289,7 @@ theorem harden_spec (bu ru bg rg : Nat) (ts : List Trigger) (hs : Standard bu ru
         split
         · exact clear2_not_ww x.mode
         · exact hp
+      | reset img => exact hp
 
 example : Standard 250 0 250 0 [.fixUid 250 0, .fixSetBits, .fixGid 250 0, .detectWorldWritable false] :=
   ⟨by intro t ht; simp only [List.mem_cons, List.not_mem_nil, or_false] at ht
@@ -341,7 +352,7 @@ theorem no_suid_world_writable_partial (bu ru bg rg : Nat) (ts : List Trigger) (
     (c : CSet) (hnd : (c.map (·.loc)).Nodup) :
     ∀ e' ∈ runTriggers ts c, e'.isSym = false → ¬ Unsafe e'.mode := by
   intro e' he' hsym
-  rw [(premerge_pointwise ts c hnd).1] at he'
+  rw [(premerge_pointwise ts hs.noReset c hnd).1] at he'
   obtain ⟨e, _, rfl⟩ := List.mem_map.1 he'
   have h := harden_spec bu ru bg rg ts hs e
   apply h.safe
@@ -361,7 +372,7 @@ theorem reowned (bu ru bg rg : Nat) (ts : List Trigger) (hs : Standard bu ru bg 
     (runTriggers ts c).map (fun e => (e.loc, e.uid, e.gid)) =
       c.map (fun e => (e.loc, (if e.uid = bu then ru else e.uid), (if e.gid = bg then rg else e.gid))) ∧
     (bu ≠ ru → ∀ e' ∈ runTriggers ts c, e'.uid ≠ bu) ∧ (bg ≠ rg → ∀ e' ∈ runTriggers ts c, e'.gid ≠ bg) := by
-  rw [(premerge_pointwise ts c hnd).1]
+  rw [(premerge_pointwise ts hs.noReset c hnd).1]
   refine ⟨?_, ?_, ?_⟩
   · rw [List.map_map]
     apply List.map_congr_left
@@ -388,7 +399,7 @@ theorem fixes_preserve_identity (bu ru bg rg : Nat) (ts : List Trigger) (hs : St
     (c : CSet) (hnd : (c.map (·.loc)).Nodup) :
     (runTriggers ts c).map (fun e => (e.kind, e.loc, e.payload)) = c.map (fun e => (e.kind, e.loc, e.payload)) ∧
     (runTriggers ts c).map (fun e => e.mode &&& 0o171775) = c.map (fun e => e.mode &&& 0o171775) := by
-  rw [(premerge_pointwise ts c hnd).1]
+  rw [(premerge_pointwise ts hs.noReset c hnd).1]
   constructor
   · rw [List.map_map]
     apply List.map_congr_left
@@ -418,12 +429,97 @@ theorem engine_premerge_hardens (bu ru bg rg : Nat) (c : CSet) (hnd : (c.map (·
     runTriggers (defaultTriggers bu ru bg rg) c = c.map (hardenWith (defaultTriggers bu ru bg rg)) ∧
     ∀ e ∈ c, Hardened bu ru bg rg false e (hardenWith (defaultTriggers bu ru bg rg) e) := by
   obtain ⟨hstd, _, hno, _, _⟩ := engine_order_standard bu ru bg rg
-  refine ⟨(premerge_pointwise _ c hnd).1, ?_⟩
+  refine ⟨(premerge_pointwise _ hstd.noReset c hnd).1, ?_⟩
   intro e _
   have h := harden_spec bu ru bg rg _ hstd e
   have : decide (Trigger.detectWorldWritable true ∈ defaultTriggers bu ru bg rg) = false := by simpa using hno
   rw [this] at h
   exact h
+
+/-! ## engines assembled by the ebuild format: the contents reset -/
+
+/-- **Hardening applies to what is finally merged.**  If the `pre_merge` hook contains `preinst_contents_reset`
+(which replaces `new_cset` by a fresh scan `image` of `${D}`) and every hardening trigger runs *after* the last
+reset (`post`), the hook's result is the hardened form of the scanned image, whatever ran before the reset. -/
+theorem reset_then_harden (bu ru bg rg : Nat) (pre post : List Trigger) (image c : CSet)
+    (himg : (image.map (·.loc)).Nodup) (hs : Standard bu ru bg rg post) :
+    runTriggers (pre ++ .reset image :: post) c = image.map (hardenWith post) ∧
+    ∀ e ∈ image, Hardened bu ru bg rg (decide (Trigger.detectWorldWritable true ∈ post)) e (hardenWith post e) := by
+  constructor
+  · rw [runTriggers_append]
+    show runTriggers post (resetContents image (runTriggers pre c)) = _
+    rw [resetContents_eq image _ himg]
+    exact (premerge_pointwise post hs.noReset image himg).1
+  · intro e _
+    exact harden_spec bu ru bg rg post hs e
+
+/-- the ordering that `reset_then_harden` needs is necessary: a fixer that runs before the reset is undone -/
+theorem reset_after_fixers_counterexample :
+    ∃ e' ∈ runTriggers [.fixUid 250 0, .fixGid 251 0, .fixSetBits, .reset [⟨0, "/bin/su".toList, 0o4757, 250, 251, 1⟩]]
+        [⟨0, "/bin/su".toList, 0o4757, 250, 251, 1⟩], e'.uid = 250 ∧ Unsafe e'.mode :=
+  ⟨⟨0, "/bin/su".toList, 0o4757, 250, 251, 1⟩, by decide, by decide⟩
+
+/-- names of the generated ebuild-engine `pre_merge` order that come after the last `preinst_contents_reset` -/
+def namesAfterReset : List String :=
+  (Generated.C23.ebuildPreMergeOrder.reverse.takeWhile (· ≠ "preinst_contents_reset")).reverse
+
+/-- names up to (excluding) the last `preinst_contents_reset` -/
+def namesBeforeReset : List String :=
+  (Generated.C23.ebuildPreMergeOrder.reverse.dropWhile (· ≠ "preinst_contents_reset")).reverse.dropLast
+
+/-- **In the engine as the ebuild format really assembles it** (default plugins, then the format's triggers, then the
+domain's triggers; order regenerated from the real engine on every run, priorities included) the contents reset
+precedes every hardening trigger, so the hook's result is the hardened image: a change of any trigger priority that
+lets a fixer run before the reset makes this theorem fail to re-prove. -/
+theorem ebuild_engine_premerge_hardens (bu ru bg rg : Nat) (image c : CSet) (himg : (image.map (·.loc)).Nodup) :
+    ∃ post, Standard bu ru bg rg post ∧ Trigger.detectWorldWritable true ∉ post ∧
+      runTriggers (ebuildTriggers bu ru bg rg image) c = image.map (hardenWith post) ∧
+      ∀ e ∈ image, Hardened bu ru bg rg false e (hardenWith post e) := by
+  have hsplit : Generated.C23.ebuildPreMergeOrder = namesBeforeReset ++ "preinst_contents_reset" :: namesAfterReset := by
+    decide
+  have hafter : "fix_uid_perms" ∈ namesAfterReset ∧ "fix_gid_perms" ∈ namesAfterReset ∧ "fix_set_bits" ∈ namesAfterReset ∧
+      "preinst_contents_reset" ∉ namesAfterReset := by decide
+  let f := triggerOfNameE bu ru bg rg image
+  have hof : ∀ name t, name ≠ "preinst_contents_reset" → f name = some t →
+      t = .fixUid bu ru ∨ t = .fixGid bg rg ∨ t = .fixSetBits ∨ t = .detectWorldWritable false := by
+    intro name t hne h
+    simp only [f, triggerOfNameE, hne, if_false] at h
+    unfold triggerOfName at h
+    split at h
+    · exact Or.inl (Option.some.inj h).symm
+    · exact Or.inr (Or.inl (Option.some.inj h).symm)
+    · exact Or.inr (Or.inr (Or.inl (Option.some.inj h).symm))
+    · exact Or.inr (Or.inr (Or.inr (Option.some.inj h).symm))
+    · cases h
+  let post := namesAfterReset.filterMap f
+  have hpost_of : ∀ t ∈ post, t = .fixUid bu ru ∨ t = .fixGid bg rg ∨ t = .fixSetBits ∨ t = .detectWorldWritable false := by
+    intro t ht
+    obtain ⟨name, hn, hname⟩ := List.mem_filterMap.1 ht
+    exact hof name t (fun h => hafter.2.2.2 (h ▸ hn)) hname
+  have hstd : Standard bu ru bg rg post := by
+    refine ⟨?_, ?_, ?_, ?_⟩
+    · intro t ht
+      rcases hpost_of t ht with h | h | h | h
+      · exact Or.inl h
+      · exact Or.inr (Or.inl h)
+      · exact Or.inr (Or.inr (Or.inl h))
+      · exact Or.inr (Or.inr (Or.inr ⟨false, h⟩))
+    · exact List.mem_filterMap.2 ⟨"fix_uid_perms", hafter.1, rfl⟩
+    · exact List.mem_filterMap.2 ⟨"fix_gid_perms", hafter.2.1, rfl⟩
+    · exact List.mem_filterMap.2 ⟨"fix_set_bits", hafter.2.2.1, rfl⟩
+  have hno : Trigger.detectWorldWritable true ∉ post := by
+    intro ht
+    rcases hpost_of _ ht with h | h | h | h <;> cases h
+  have heq : ebuildTriggers bu ru bg rg image = namesBeforeReset.filterMap f ++ .reset image :: post := by
+    unfold ebuildTriggers
+    rw [hsplit, List.filterMap_append, List.filterMap_cons]
+    have : triggerOfNameE bu ru bg rg image "preinst_contents_reset" = some (.reset image) := by
+      simp [triggerOfNameE]
+    rw [this]
+  have h := reset_then_harden bu ru bg rg (namesBeforeReset.filterMap f) post image c himg hstd
+  have hdec : decide (Trigger.detectWorldWritable true ∈ post) = false := by simpa using hno
+  rw [hdec] at h
+  exact ⟨post, hstd, hno, heq ▸ h.1, h.2⟩
 
 /-- the executable judge the check applies to the real code's before/after pairs decides exactly `Hardened` -/
 theorem spec_checker_sound (bu ru bg rg : Nat) (fp : Bool) (e e' : Entry) :
